@@ -47,6 +47,12 @@ enum Dml {
     /// wide table: (id BIGINT, v INT, pad TEXT) — every insert carries ~600 bytes so that the log leaves block zero quickly;
     /// the model sees it as an ordinary table (pad is a function of nothing and is never selected)
     CrtW(String),
+    /// indexed table: (id BIGINT, v INT) plus a unique secondary index on v (values of v are distinct; an autocommit insert
+    /// may take over the v of a row whose autocommit DELETE committed earlier), created in the same call; table names start with `x`.
+    /// After a crash every dump of such a table also compares, for the values present, the answer of `WHERE v = …`
+    /// (index plan) with the rows of the scan.  No UPDATE is generated on these tables (stale index after a key UPDATE
+    /// is a listed finding of C06, pinned by a test).
+    CrtX(String),
     Drp(String),
     Ins(String, i64, i64),
     Upd(String, i64, i64),
@@ -58,9 +64,14 @@ impl Dml {
         match self {
             Dml::Crt(t) => format!("CREATE TABLE {} (id BIGINT, v INT)", t),
             Dml::CrtW(t) => format!("CREATE TABLE {} (id BIGINT, v INT, pad TEXT)", t),
+            Dml::CrtX(t) => format!("CREATE TABLE {} (id BIGINT, v INT)", t),
             Dml::Drp(t) => format!("DROP TABLE {}", t),
             Dml::Ins(t, id, v) if t.starts_with('w') => {
                 format!("INSERT INTO {} VALUES ({}, {}, '{}')", t, id, v, "p".repeat(600))
+            }
+            // rows longer than a page: overflow chains are allocated, and freed again by DELETE + VACUUM
+            Dml::Ins(t, id, v) if t.starts_with('v') => {
+                format!("INSERT INTO {} VALUES ({}, {}, '{}')", t, id, v, "q".repeat(4000 + (*id as usize % 5) * 1500))
             }
             Dml::Ins(t, id, v) => format!("INSERT INTO {} VALUES ({}, {})", t, id, v),
             Dml::Upd(t, id, v) => format!("UPDATE {} SET v = {} WHERE id = {}", t, v, id),
@@ -69,7 +80,8 @@ impl Dml {
     }
     fn parse(ws: &[&str]) -> Option<Dml> {
         Some(match ws {
-            ["crt", t] if t.starts_with('w') => Dml::CrtW(t.to_string()),
+            ["crt", t] if t.starts_with('w') || t.starts_with('v') => Dml::CrtW(t.to_string()),
+            ["crt", t] if t.starts_with('x') => Dml::CrtX(t.to_string()),
             ["crt", t] => Dml::Crt(t.to_string()),
             ["drp", t] => Dml::Drp(t.to_string()),
             ["ins", t, id, v] => Dml::Ins(t.to_string(), id.parse().ok()?, v.parse().ok()?),
@@ -80,7 +92,7 @@ impl Dml {
     }
     fn show(&self) -> String {
         match self {
-            Dml::Crt(t) | Dml::CrtW(t) => format!("crt {}", t),
+            Dml::Crt(t) | Dml::CrtW(t) | Dml::CrtX(t) => format!("crt {}", t),
             Dml::Drp(t) => format!("drp {}", t),
             Dml::Ins(t, id, v) => format!("ins {} {} {}", t, id, v),
             Dml::Upd(t, id, v) => format!("upd {} {} {}", t, id, v),
@@ -89,7 +101,7 @@ impl Dml {
     }
     fn table(&self) -> &str {
         match self {
-            Dml::Crt(t) | Dml::CrtW(t) | Dml::Drp(t) | Dml::Ins(t, _, _) | Dml::Upd(t, _, _) | Dml::Del(t, _) => t,
+            Dml::Crt(t) | Dml::CrtW(t) | Dml::CrtX(t) | Dml::Drp(t) | Dml::Ins(t, _, _) | Dml::Upd(t, _, _) | Dml::Del(t, _) => t,
         }
     }
 }
@@ -162,7 +174,7 @@ fn show_op(op: &Op) -> String {
 fn table_names(ops: &[Op]) -> Vec<String> {
     let mut v: Vec<String> = Vec::new();
     let mut add = |d: &Dml| {
-        if matches!(d, Dml::Crt(_) | Dml::CrtW(_)) && !v.contains(&d.table().to_string()) {
+        if matches!(d, Dml::Crt(_) | Dml::CrtW(_) | Dml::CrtX(_)) && !v.contains(&d.table().to_string()) {
             v.push(d.table().to_string());
         }
     };
@@ -191,6 +203,12 @@ fn dump_tables(db: &Database, tables: &[String]) -> String {
                     })
                     .collect();
                 rs.sort();
+                if t.starts_with('x') {
+                    if let Some(bad) = index_disagrees(db, t, &rs) {
+                        parts.push(format!("{}:IXDIFF({})", t, bad));
+                        continue;
+                    }
+                }
                 parts.push(format!("{}:{}", t, rs.into_iter().map(|x| x.1).collect::<Vec<_>>().join(",")));
             }
             Ok(_) => parts.push(format!("{}:weird", t)),
@@ -203,6 +221,44 @@ fn dump_tables(db: &Database, tables: &[String]) -> String {
         }
     }
     parts.join("/")
+}
+
+/// For up to 16 of the values of `v` present in the scan (and one absent value), does `WHERE v = …` (answered through the
+/// index) return exactly the scan's rows with that value?  Returns a description of the first disagreement.
+fn index_disagrees(db: &Database, t: &str, scan: &[(i64, String)]) -> Option<String> {
+    let mut vals: Vec<String> = scan.iter().filter_map(|(_, s)| s.split_once('=').map(|x| x.1.to_string())).collect();
+    vals.sort();
+    vals.dedup();
+    vals.truncate(16);
+    vals.push("123456".into());
+    for v in vals {
+        let mut want: Vec<String> = scan.iter().filter(|(_, s)| s.split_once('=').map(|x| x.1) == Some(v.as_str())).map(|x| x.1.clone()).collect();
+        want.sort();
+        let got = match db.execute(&format!("SELECT id, v FROM {} WHERE v = {}", t, v)) {
+            Ok(QueryResult::Rows(rows)) => {
+                let mut g: Vec<String> = rows
+                    .iterrows()
+                    .map(|r| {
+                        let cells: Vec<String> = r.iter().map(|v| v.to_string()).collect();
+                        format!("{}={}", cells[0], cells[1])
+                    })
+                    .collect();
+                g.sort();
+                g
+            }
+            Ok(_) => vec!["weird".into()],
+            Err(e) => vec![format!("error:{}", e).replace(' ', "_")],
+        };
+        if got != want {
+            if std::env::var("AXH_DEBUG").is_ok() {
+                eprintln!("index disagreement on {} v={}: got {:?} want {:?}; plan {:?}", t, v, got, want, db.explain(&format!("SELECT id, v FROM {} WHERE v = {}", t, v)));
+                eprintln!("  full scan: {:?}", scan);
+                eprintln!("  v >= 0: {:?}", db.execute(&format!("SELECT id, v FROM {} WHERE v >= 0", t)).map(|r| format!("{:?}", r)));
+            }
+            return Some(format!("v={}:index={}:scan={}", v, got.join("+"), want.join("+")));
+        }
+    }
+    None
 }
 
 fn err_class(e: &axmosdb::DatabaseError) -> &'static str {
@@ -395,6 +451,30 @@ fn observe_image(img: &Image, tables: &[String], cfg: DBConfig, nested: bool) ->
                         && db2.execute("INSERT INTO zz_probe VALUES (1, 1)").is_ok()
                         && matches!(db2.execute("SELECT id, v FROM zz_probe"), Ok(QueryResult::Rows(r)) if r.len() == 1);
                     res.probe = if ok { "ok".into() } else { "fail".into() };
+                    // … also for the tables it already holds: a new row must be accepted, found again, and be one more row
+                    if ok {
+                        for t in tables {
+                            let before = match db2.execute(&format!("SELECT id, v FROM {}", t)) {
+                                Ok(QueryResult::Rows(r)) => r.len(),
+                                _ => continue, // table absent in this image
+                            };
+                            let ins = if t.starts_with('w') || t.starts_with('v') {
+                                format!("INSERT INTO {} VALUES (900001, 900001, 'p')", t)
+                            } else {
+                                format!("INSERT INTO {} VALUES (900001, 900001)", t)
+                            };
+                            let accepted = db2.execute(&ins).is_ok();
+                            let found = matches!(db2.execute(&format!("SELECT id, v FROM {} WHERE id = 900001", t)), Ok(QueryResult::Rows(r)) if r.len() == 1);
+                            let after = match db2.execute(&format!("SELECT id, v FROM {}", t)) {
+                                Ok(QueryResult::Rows(r)) => r.len(),
+                                _ => usize::MAX,
+                            };
+                            if !(accepted && found && after == before + 1) {
+                                res.probe = format!("insert-into-{}:accepted={},found={},rows={}->{}", t, accepted, found, before, after);
+                                break;
+                            }
+                        }
+                    }
                     drop(db2);
                 }
                 Ok(Err(e)) => res.again = format!("fail:{}", err_class(&e)),
@@ -447,6 +527,11 @@ fn run_case(line: &str) -> String {
     for (i, op) in ops.iter().enumerate() {
         iotap::mark(&format!("call {}", i));
         let r: Result<(), String> = match op {
+            Op::Auto(Dml::CrtX(t)) => db
+                .execute(&Dml::CrtX(t.clone()).sql())
+                .and_then(|_| db.execute(&format!("CREATE UNIQUE INDEX {}_v ON {} (v)", t, t)))
+                .map(|_| ())
+                .map_err(|_| "err".to_string()),
             Op::Auto(d) => db.execute(&d.sql()).map(|_| ()).map_err(|_| "err".to_string()),
             Op::Batch(ds) => {
                 let sqls: Vec<String> = ds.iter().map(|d| d.sql()).collect();
@@ -593,7 +678,7 @@ fn run_case(line: &str) -> String {
             applied += 1;
         }
         // crash points inside recovery: only for C08, only where the log is non-trivial, at most NEST per case
-        let nested = hw[0] == "crash08" && nest_budget > 0 && inflight.is_some();
+        let nested = (hw[0] == "crash08" || hw[0] == "crash01") && nest_budget > 0 && inflight.is_some();
         if nested {
             nest_budget -= 1;
         }
@@ -741,11 +826,15 @@ fn run_case(line: &str) -> String {
 
 impl Engine for CrashEngine {
     fn timeout_ms(&self) -> u64 {
-        25_000
+        120_000
     }
 
     fn exec(&mut self, line: &str) -> String {
-        run_case(line)
+        // the library prints to stdout on some paths (CREATE INDEX): keep that out of the line protocol
+        let guard = crate::util::StdoutSilencer::new();
+        let out = run_case(line);
+        drop(guard);
+        out
     }
 
     fn gen_cases(&self, rng: &mut Rng, tier: Tier) -> Vec<Case> {
@@ -777,27 +866,36 @@ impl Engine for CrashEngine {
 ///   drop_table    DROP TABLE and re-CREATE
 ///   vacuum        VACUUM in the middle
 ///   steal         wide rows and a cache of 8-16 frames: dirty pages are evicted (written in place) between checkpoints
+///   overflow      rows longer than a page (overflow chains), DELETE + VACUUM in the middle so that freed pages are re-used
+///   indexed       tables with a unique secondary index (index plan vs scan compared at every crash point)
+///   mixed_txn     committed sessions that UPDATE / DELETE older rows, span two tables, or create a table (commit or rollback)
 ///   big_log       wide rows and 60–120 steps: the log spans several blocks between checkpoints
 fn gen_workload(rng: &mut Rng, _head: &str, idx: usize) -> (Vec<Op>, Vec<String>, usize) {
     let family = match idx % 10 {
-        0..=3 => "clean",
+        0..=1 => "clean",
+        // committed session transactions that also UPDATE and DELETE rows committed earlier, span both tables, or create
+        // a table and fill it (committed or rolled back)
+        2 => "mixed_txn",
+        // tables with a secondary index on v (names x*): the index must agree with the table at every crash point
+        3 => "indexed",
         4 => "open_txn",
         5 => "rb_update",
         6 => "no_init_ckpt",
         7 => "drop_table",
         8 => "vacuum",
         // steal: wide rows and a cache of a few frames, so that dirty pages are evicted (written in place) between checkpoints
-        _ => if idx % 20 == 9 { "steal" } else { "big_log" },
+        _ => if idx % 20 == 9 { "steal" } else if idx % 40 == 19 { "overflow" } else { "big_log" },
     };
     let mut ops = Vec::new();
     let mut tags: Vec<String> = vec![format!("0fam_{}", family)];
     let ntables = 1 + rng.below(2) as usize;
     // big_log: wide rows (table names starting with `w`), so that the log spans several blocks between checkpoints
-    let wide = family == "big_log" || family == "steal";
-    let prefix = if wide { "w" } else { "t" };
+    let wide = family == "big_log" || family == "steal" || family == "overflow";
+    let indexed = family == "indexed";
+    let prefix = if family == "overflow" { "v" } else if wide { "w" } else if indexed { "x" } else { "t" };
     let tables: Vec<String> = (1..=ntables).map(|i| format!("{}{}", prefix, i)).collect();
     for t in &tables {
-        ops.push(Op::Auto(if wide { Dml::CrtW(t.clone()) } else { Dml::Crt(t.clone()) }));
+        ops.push(Op::Auto(if wide { Dml::CrtW(t.clone()) } else if indexed { Dml::CrtX(t.clone()) } else { Dml::Crt(t.clone()) }));
     }
     if family != "no_init_ckpt" {
         ops.push(Op::Flush);
@@ -805,9 +903,14 @@ fn gen_workload(rng: &mut Rng, _head: &str, idx: usize) -> (Vec<Op>, Vec<String>
     let mut next_id: BTreeMap<String, i64> = tables.iter().map(|t| (t.clone(), 1)).collect();
     let mut live: BTreeMap<String, Vec<i64>> = tables.iter().map(|t| (t.clone(), vec![])).collect();
     let long = idx % 4 == 0;
-    let steps = if wide { 60 + rng.below(60) as usize } else { 4 + rng.below(if long { 40 } else { 10 }) as usize };
+    let steps = if family == "overflow" { 20 + rng.below(25) as usize } else if wide { 60 + rng.below(60) as usize } else { 4 + rng.below(if long { 40 } else { 10 }) as usize };
     let mut sess = 0u32;
     let mut special_done = false;
+    // indexed family: v is unique per table; values freed by a committed autocommit DELETE (first table only) may be taken over
+    let uniq_v = |t: &str, id: i64| -> i64 { 5000 + id * 3 + if t.ends_with('2') { 1 } else { 0 } };
+    let mut val_of: BTreeMap<(String, i64), i64> = BTreeMap::new();
+    let mut freed_v: Vec<i64> = Vec::new();
+    let mut created_in_session: Vec<String> = Vec::new();
     for step in 0..steps {
         let t = rng.pick(&tables).clone();
         // the family's special feature, once, somewhere in the middle
@@ -858,6 +961,17 @@ fn gen_workload(rng: &mut Rng, _head: &str, idx: usize) -> (Vec<Op>, Vec<String>
                     ops.push(Op::Vacuum);
                     continue;
                 }
+                "overflow" => {
+                    // free the overflow chains of the rows deleted so far, so that later rows re-use their pages
+                    for _ in 0..2 {
+                        if let Some(&id) = live[&t].first() {
+                            ops.push(Op::Auto(Dml::Del(t.clone(), id)));
+                            live.get_mut(&t).unwrap().remove(0);
+                        }
+                    }
+                    ops.push(Op::Vacuum);
+                    continue;
+                }
                 _ => {}
             }
         }
@@ -868,19 +982,35 @@ fn gen_workload(rng: &mut Rng, _head: &str, idx: usize) -> (Vec<Op>, Vec<String>
             0..=4 => {
                 let id = next_id[&t];
                 *next_id.get_mut(&t).unwrap() += 1;
-                ops.push(Op::Auto(Dml::Ins(t.clone(), id, rng.range(-50, 500))));
+                let v = if indexed {
+                    if rng.chance(1, 4) && !freed_v.is_empty() {
+                        tags.push("reuse_deleted_key".into());
+                        freed_v.pop().unwrap()
+                    } else {
+                        uniq_v(&t, id)
+                    }
+                } else {
+                    rng.range(-50, 500)
+                };
+                ops.push(Op::Auto(Dml::Ins(t.clone(), id, v)));
                 live.get_mut(&t).unwrap().push(id);
+                val_of.insert((t.clone(), id), v);
                 tags.push("auto_insert".into());
             }
             5 => {
                 if let Some(&id) = live[&t].first() {
                     ops.push(Op::Auto(Dml::Del(t.clone(), id)));
                     live.get_mut(&t).unwrap().remove(0);
+                    if let Some(v) = val_of.get(&(t.clone(), id)) {
+                        if indexed && t == tables[0] {
+                            freed_v.push(*v);
+                        }
+                    }
                     tags.push("auto_delete".into());
                 }
             }
             6 => {
-                if !live[&t].is_empty() {
+                if !live[&t].is_empty() && !indexed {
                     let id = *rng.pick(&live[&t]);
                     ops.push(Op::Auto(Dml::Upd(t.clone(), id, rng.range(1000, 2000))));
                     tags.push("auto_update".into());
@@ -896,11 +1026,55 @@ fn gen_workload(rng: &mut Rng, _head: &str, idx: usize) -> (Vec<Op>, Vec<String>
                 for _ in 0..1 + rng.below(3) {
                     let id = next_id[&t];
                     *next_id.get_mut(&t).unwrap() += 1;
-                    ops.push(Op::SDml(sess, Dml::Ins(t.clone(), id, rng.range(0, 99))));
+                    ops.push(Op::SDml(sess, Dml::Ins(t.clone(), id, if indexed { uniq_v(&t, id) } else { rng.range(0, 99) })));
                     live.get_mut(&t).unwrap().push(id);
+                }
+                if family == "mixed_txn" {
+                    // rows committed before this transaction began
+                    let older: Vec<i64> = live[&t].iter().cloned().filter(|i| *i < next_id[&t] - 3).collect();
+                    if !older.is_empty() && rng.chance(2, 3) {
+                        let id = *rng.pick(&older);
+                        ops.push(Op::SDml(sess, Dml::Upd(t.clone(), id, rng.range(2000, 2999))));
+                        tags.push("session_update".into());
+                    }
+                    if older.len() >= 2 && rng.chance(1, 2) {
+                        let id = older[0];
+                        ops.push(Op::SDml(sess, Dml::Del(t.clone(), id)));
+                        live.get_mut(&t).unwrap().retain(|x| *x != id);
+                        tags.push("session_delete".into());
+                    }
+                    if tables.len() > 1 && rng.chance(1, 2) {
+                        let other = tables.iter().find(|x| **x != t).unwrap().clone();
+                        if hasTable(&ops, &other) {
+                            let id = next_id[&other];
+                            *next_id.get_mut(&other).unwrap() += 1;
+                            ops.push(Op::SDml(sess, Dml::Ins(other.clone(), id, rng.range(0, 99))));
+                            live.get_mut(&other).unwrap().push(id);
+                            tags.push("session_two_tables".into());
+                        }
+                    }
                 }
                 ops.push(Op::SCommit(sess));
                 tags.push("session_commit".into());
+                if family == "mixed_txn" && rng.chance(1, 3) {
+                    // DDL inside a transaction
+                    let extra = format!("t{}", 4 + rng.below(3));
+                    if !hasTable(&ops, &extra) && !created_in_session.contains(&extra) {
+                        created_in_session.push(extra.clone());
+                        sess += 1;
+                        ops.push(Op::SBegin(sess));
+                        ops.push(Op::SDml(sess, Dml::Crt(extra.clone())));
+                        ops.push(Op::SDml(sess, Dml::Ins(extra.clone(), 1, rng.range(0, 99))));
+                        ops.push(Op::SDml(sess, Dml::Ins(extra.clone(), 2, rng.range(0, 99))));
+                        if rng.chance(2, 3) {
+                            ops.push(Op::SCommit(sess));
+                            tags.push("session_ddl_commit".into());
+                        } else {
+                            ops.push(Op::SRollback(sess));
+                            tags.push("session_ddl_rollback".into());
+                        }
+                    }
+                }
             }
             9 => {
                 sess += 1;
@@ -908,7 +1082,7 @@ fn gen_workload(rng: &mut Rng, _head: &str, idx: usize) -> (Vec<Op>, Vec<String>
                 for _ in 0..1 + rng.below(3) {
                     let id = next_id[&t];
                     *next_id.get_mut(&t).unwrap() += 1;
-                    ops.push(Op::SDml(sess, Dml::Ins(t.clone(), id, rng.range(0, 99))));
+                    ops.push(Op::SDml(sess, Dml::Ins(t.clone(), id, if indexed { uniq_v(&t, id) } else { rng.range(0, 99) })));
                 }
                 ops.push(Op::SRollback(sess));
                 tags.push("session_rollback".into());
@@ -918,7 +1092,7 @@ fn gen_workload(rng: &mut Rng, _head: &str, idx: usize) -> (Vec<Op>, Vec<String>
                 for _ in 0..2 + rng.below(3) {
                     let id = next_id[&t];
                     *next_id.get_mut(&t).unwrap() += 1;
-                    ds.push(Dml::Ins(t.clone(), id, rng.range(0, 99)));
+                    ds.push(Dml::Ins(t.clone(), id, if indexed { uniq_v(&t, id) } else { rng.range(0, 99) }));
                     live.get_mut(&t).unwrap().push(id);
                 }
                 ops.push(Op::Batch(ds));
@@ -928,7 +1102,7 @@ fn gen_workload(rng: &mut Rng, _head: &str, idx: usize) -> (Vec<Op>, Vec<String>
                 // a failing autocommit statement, of several kinds (each must leave no trace, also in the log replay)
                 match rng.below(3) {
                     0 => ops.push(Op::Auto(Dml::Ins("nosuch".into(), 1, 1))),
-                    1 => ops.push(Op::Auto(if wide { Dml::CrtW(t.clone()) } else { Dml::Crt(t.clone()) })), // already exists
+                    1 => ops.push(Op::Auto(if wide { Dml::CrtW(t.clone()) } else if indexed { Dml::CrtX(t.clone()) } else { Dml::Crt(t.clone()) })), // already exists
                     _ => ops.push(Op::Auto(Dml::Drp("nosuch".into()))),
                 }
                 tags.push("failed_stmt".into());
@@ -946,7 +1120,7 @@ fn gen_workload(rng: &mut Rng, _head: &str, idx: usize) -> (Vec<Op>, Vec<String>
     }
     tags.sort();
     tags.dedup();
-    let cache = if family == "steal" { 8 + 4 * rng.below(3) as usize } else { 10000 };
+    let cache = if family == "steal" { 8 + 4 * rng.below(3) as usize } else if family == "overflow" && idx % 80 == 59 { 24 } else { 10000 };
     (ops, tags, cache)
 }
 
@@ -955,7 +1129,7 @@ fn gen_workload(rng: &mut Rng, _head: &str, idx: usize) -> (Vec<Op>, Vec<String>
 fn hasTable(ops: &[Op], t: &str) -> bool {
     let mut exists = false;
     for op in ops {
-        if let Op::Auto(Dml::Crt(x)) | Op::Auto(Dml::CrtW(x)) = op {
+        if let Op::Auto(Dml::Crt(x)) | Op::Auto(Dml::CrtW(x)) | Op::Auto(Dml::CrtX(x)) = op {
             if x == t {
                 exists = true;
             }
